@@ -1,6 +1,6 @@
 (* C02 — a response reaches exactly the request it answers; every request completes once.
    Only statements here; every proof is [exact <lemma of Proofs/C02.v>]. *)
-From Verif Require Import Lib.Py Lib.Tactics Gen.tokenmanager_next_token Model.C02 Proofs.C02 Proofs.C02Once Proofs.C02Origin Proofs.C02Inv Proofs.C02Tok.
+From Verif Require Import Lib.Py Lib.Tactics Gen.tokenmanager_next_token Model.C02 Proofs.C02 Proofs.C02Once Proofs.C02Origin Proofs.C02Inv Proofs.C02Tok Proofs.C02More Proofs.C02Safe.
 Open Scope Z_scope.
 
 (* ---- tokens (over next_token as translated from tokenmanager.py on this run) *)
@@ -178,6 +178,71 @@ Theorem C02_outstanding_tokens_distinct : forall t m a es og, 0 <= t < 2 ^ 64 ->
   outgoing (fst (run (init t m a) es)) = Some og -> NoDup (map (fun e => fst (fst e)) og).
 Proof. exact outstanding_tokens_distinct_lemma. Qed.
 Print Assumptions C02_outstanding_tokens_distinct.
+
+(* ======== round 5 (clause audit) ======== *)
+(* ---- "completes at most once" has content: in Python a second set_result / set_exception on the response future raises
+   InvalidStateError; the model renders that branch (and every other branch it marks as unreachable) as the output [Crash _],
+   which C02_complete_at_most_once does not count. From the initial state, for every event list of client-side events (no
+   request codes in incoming datagrams: the server side is outside this model), no Crash is ever produced. *)
+Theorem C02_no_second_completion : forall t m a es x, Forall ev_client es ->
+  In x (concat (snd (run (init t m a) es))) -> nocrash x.
+Proof. exact no_crash_lemma. Qed.
+Print Assumptions C02_no_second_completion.
+(* (that no exception ESCAPES the library -- outputs Raised / LoopExc, i.e. the KeyError / AssertionError branches of
+   _retransmit / _continue_backlog -- needs the message-layer invariant "every exchange's remote has a backlog entry and at most
+   one exchange"; it is NOT proved here: checked on every script by the correspondence run and the oracle rule exception-escaped) *)
+
+(* ---- datagram loss: the timer step itself (not only the helper of C02_giveup_fails) fails every pending request of the remote
+   whose exchange has used up its retransmissions *)
+Theorem C02_fire_giveup_fails : forall s ex r mid e og tok q c, Inv s -> exchanges s = Some ex ->
+  next_timer ex None = Some ((r, mid), e) -> alookup rm_eqb (r, mid) ex = Some e -> (ex_counter e <? 4) = false ->
+  amem Z.eqb r (backlogs s) = true ->
+  outgoing s = Some og -> In ((tok, Some r), q) og -> get_req s q = Some c -> cq_fut c = FPending ->
+  In (SetException q ConRetransmitsExceeded) (snd (step s Fire)).
+Proof. exact fire_giveup_fails_lemma. Qed.
+Print Assumptions C02_fire_giveup_fails.
+
+(* ---- a matching response to a pending request IS delivered (separate CON / NON response: whatever the transport does;
+   piggy-backed: while the transport accepts datagrams for r and the ACK's own message-layer processing does not raise) *)
+Theorem C02_matching_delivered : forall s r mcl w og q c, Inv s -> outgoing s = Some og ->
+  is_response (w_code w) = true -> (w_mtype w = CON \/ w_mtype w = NON) ->
+  matching og (w_token w) r = Some q -> get_req s q = Some c -> cq_fut c = FPending ->
+  In (SetResult q (w_rid w) (w_token w) r) (snd (dispatch_message s r mcl w)).
+Proof. exact matching_delivered_lemma. Qed.
+Print Assumptions C02_matching_delivered.
+Theorem C02_matching_delivered_piggybacked : forall s r mcl w og q c, Inv s -> outgoing s = Some og -> refuses s r = false ->
+  is_response (w_code w) = true -> w_mtype w = ACK -> snd (_remove_exchange s r w) = false ->
+  matching og (w_token w) r = Some q -> get_req s q = Some c -> cq_fut c = FPending ->
+  In (SetResult q (w_rid w) (w_token w) r) (snd (dispatch_message s r mcl w)).
+Proof. exact matching_delivered_ack_lemma. Qed.
+Print Assumptions C02_matching_delivered_piggybacked.
+
+(* ---- a Reset for the exchange of a CON request that still waits for its response fails it with MessageError *)
+Theorem C02_reset_fails : forall s r mcl w ex e c rest, exchanges s = Some ex -> alookup rm_eqb (r, w_mid w) ex = Some e ->
+  w_mtype w = RST -> is_request (w_code w) = false -> get_req s (ex_monitor e) = Some c ->
+  cq_cbs c = Some (CbProcess :: rest) -> cq_runner c = AwaitFirst -> cq_fut c = FPending ->
+  In (SetException (ex_monitor e) MessageError) (snd (dispatch_message s r mcl w)).
+Proof. exact reset_fails_lemma. Qed.
+Print Assumptions C02_reset_fails.
+
+(* ---- C02_deliver_only_matching without its side condition: whatever the message layer did before the table was consulted
+   (it only removes entries), the request had an entry under the datagram's token and (its source endpoint or None) BEFORE the datagram *)
+Theorem C02_deliver_only_matching_gen : forall s r mcl w s' outs o og, outgoing s = Some og ->
+  dispatch_message s r mcl w = (s', outs) -> In o outs -> is_delivery o = true ->
+  exists q k, alookup key_eqb k og = Some q /\ fst k = w_token w /\ (snd k = Some r \/ snd k = None) /\
+    (o = SetResult q (w_rid w) (w_token w) r \/ o = Notify q (w_rid w) (w_token w) r) /\
+    is_response (w_code w) = true /\ w_mtype w <> RST.
+Proof. exact deliver_only_matching_gen_lemma. Qed.
+Print Assumptions C02_deliver_only_matching_gen.
+
+(* ---- the delivery clause in one statement over every state with the invariant (all reachable ones: C02_reachable_inv) *)
+Theorem C02_run_delivery : forall s e s' o x q rid tok from, Inv s -> event_wf e -> step s e = (s', o) -> In x o ->
+  (x = SetResult q rid tok from \/ x = Notify q rid tok from) ->
+  exists mcl w og k c, e = Recv from mcl w /\ rid = w_rid w /\ tok = w_token w /\ outgoing s = Some og /\
+    alookup key_eqb k og = Some q /\ fst k = tok /\ (snd k = Some from \/ snd k = None) /\
+    get_req s q = Some c /\ live c /\ (cq_remote c = from \/ is_multicast (cq_remote c) = true).
+Proof. exact run_delivery_lemma. Qed.
+Print Assumptions C02_run_delivery.
 
 (* ---- non-vacuity: the invariant and the hypotheses above are satisfied by concrete busy states *)
 Example C02_nonvacuous_state :
